@@ -569,6 +569,10 @@ package larking
 //@        && old(l.len) < 64 ==> err == nil
 //@   oracle !(l_old.pos < len(l_old.input) && verifASCIILetter(l_old.input[l_old.pos]) && l_old.len < 64) || err == nil
 //@   ensures [wildcards-accepted C16] old(l.pos) < len(l.input) && l.input[old(l.pos)] == 42 && old(l.len) < 64 ==> err == nil
+// (a LITERAL is a run of the characters the lexer itself calls literal - letters,
+// digits, '-', '_', '.' - whichever of them comes first: "/v1/2fa", "/.well-known/x")
+//@   ensures [every-literal-accepted C16] old(l.pos) < len(l.input) && l.input[old(l.pos)] < 128 && IsLiteralR(l.input[old(l.pos)]) && old(l.len) < 64 ==> err == nil
+//@   witness verifWitnessLiteralStart for every-literal-accepted
 
 //@ func lexSegments serves C16 C09
 //@   returns (err)
